@@ -5,6 +5,7 @@ import Driver.DecoderApi
 -- @family linkdecapi Drv.Links.hLinkDecApi
 -- @family linkinteg Drv.Links.hLinkInteg
 -- @family linkraw Drv.Links.hLinkRaw
+-- @family linkwire Drv.Links.hLinkWire
 /-!
 Executable cross-checks of the links between the decoder models (`FitProps/Links.lean`): both models are evaluated
 on the same operation line and the projections compared — a sanity net beside the theorems (and the place where a
@@ -19,6 +20,10 @@ first token replaced (`checklib/props/_links.py`):
 
 * `linkraw b:<hex>` (arguments of a `rawdec` line) — where the independent framing spec `FitFormat.segments` segments the
   stream, the raw decoder model must accept it and report exactly those segments (`Link_fitformat_raw`).
+
+* `linkwire chk=<0|1> <hex>` (a `decw` line) — the wire model (A) against (D) in the common form `WEv` (definitions, per message header /
+  number / field bytes, per sequence header and CRCs, error class), on streams where every field description (A) records has a
+  valid base type (`n/a:fd-invalid` otherwise: there (A) is known to be wrong, notes/links.md D1).
 
 Answer: `ok`, `n/a:<hypothesis not met>`, or `diff:<which>`.
 -/
@@ -97,5 +102,17 @@ def hLinkRaw : Handler := modelOnly fun args =>
       else if layout 0 out.segs != segs then "diff:segments"
       else if Fit.Raw.flat out.segs != bs then "diff:bytes"
       else "ok"
+
+def hLinkWire : Handler := modelOnly fun args =>
+  let chk := !(args.contains "chk=0")
+  match (match (args.filter fun a => !a.startsWith "chk=").map unhex with | [] => [some []] | l => l) with
+  | [some bs] =>
+    let fuel := bs.length + 1
+    let a := Fit.Wire.decodeStream (fun _ => true) chk fuel true bs
+    let same := wireObsA a == wireObsD (runExact (Fit.DecProg.decodeLoop chk fuel true []) bs)
+    if !fdValidA a.1 then (if same then "n/a:fd-invalid" else "n/a:fd-invalid,differ")
+    else if same then "ok"
+    else "diff:wire"
+  | _ => "bad-op"
 
 end Drv.Links
